@@ -46,6 +46,10 @@ def facts(repo, features=None):
     key = _tree_hash(repo) + ('' if features is None else '-' + ('_'.join(features) or 'none'))
     cdir = os.path.join(VERIF, '.cache')
     cfile = os.path.join(cdir, 'mirfacts-%s.jsonl' % key)
+    os.makedirs(cdir, exist_ok=True)
+    import fcntl
+    lock = open(os.path.join(cdir, 'mirfacts.lock'), 'w')
+    fcntl.flock(lock, fcntl.LOCK_EX)      # C16 and C17 may run at the same time: one of them builds the facts, the other waits
     if not os.path.exists(cfile):
         tmp = tempfile.mkdtemp(prefix='educe-mir-')
         try:
@@ -69,10 +73,13 @@ def facts(repo, features=None):
             old = sorted((os.path.join(cdir, x) for x in os.listdir(cdir) if x.startswith('mirfacts-')), key=os.path.getmtime)
             for x in old[:-40]:
                 os.remove(x)
-            shutil.copy(out, cfile + '.tmp')
-            os.replace(cfile + '.tmp', cfile)
+            shutil.copy(out, cfile + '.tmp%d' % os.getpid())
+            os.replace(cfile + '.tmp%d' % os.getpid(), cfile)
         finally:
             shutil.rmtree(tmp, ignore_errors=True)
+            if not os.path.exists(cfile):
+                fcntl.flock(lock, fcntl.LOCK_UN)
+    fcntl.flock(lock, fcntl.LOCK_UN)
     rows = [json.loads(l) for l in open(cfile) if l.strip()]
     _cache[ck] = rows
     return rows
